@@ -265,7 +265,8 @@ def s_mul(a, b):
                 for _ in range(abs(n) - 1):
                     acc = acc * p
                 return LogV(acc if n > 0 else 1 / acc)
-        # (possibly -inf) * non-constant: 0 * -inf is NaN
+        # (possibly -inf) * non-constant: 0 * -inf is NaN -- recorded as a NaN condition of the current evaluation
+        NAN_CONDS.append(z3.And(l.P == 0, r == 0))
         return z3.If(l.P == 0, z3.FreshReal("nan"), l.term() * r)
     if is_num(a) and is_num(b):
         v = num_val(a) * num_val(b)
@@ -277,6 +278,10 @@ def s_mul(a, b):
                 return x
             if v == 1:
                 return y
+    for x, y in ((a, b), (b, a)):
+        if is_app_of(x, "Log", 1) and not is_num(y) and not is_num(x.arg(0)):
+            # Log(t) * y with t possibly 0 and y possibly 0: 0 * -inf is NaN in floating point
+            NAN_CONDS.append(z3.And(x.arg(0) == 0, y == 0))
     return a * b
 
 
@@ -370,6 +375,7 @@ def s_exp(a):
 
 
 LOGMODE = [False]
+NAN_CONDS = []      # conditions under which 0 * (-inf) was computed (NaN in floating point)
 
 
 def s_log(a):
@@ -1777,7 +1783,9 @@ def sym_trace(fn, *example_args, prefix="a", logmode=False, sym_in=None, ctx=Non
             sym_in.append(fresh_like(v.aval.shape, v.aval.dtype, nm))
     else:
         sym_in = [obj(s) for s in sym_in]
+    del NAN_CONDS[:]
     outs = eval_jaxpr(ctx, closed.jaxpr, closed.consts, *sym_in)
+    ctx.nan_conds = list(NAN_CONDS)
     out_tree = jax.tree_util.tree_structure(out_shape)
     return Traced(ctx, jax.tree_util.tree_unflatten(in_tree, sym_in),
                   jax.tree_util.tree_unflatten(out_tree, outs), closed, sym_in, outs, out_shape)
